@@ -6,9 +6,12 @@ namespace {
 
 enum Prop { P_C06, P_C02, P_C15, P_C20, P_C08 };
 struct UserError { int k; };
+// the same, thrown as a class derived from a standard exception with a payload of its own (what user code usually throws): the future /
+// the caller must receive this very exception object type, not a sliced std::exception
+struct UserStdError : std::out_of_range, UserError { UserStdError(int k_) : std::out_of_range("user"), UserError{k_} {} };
 
 struct Sub { int fiber; int kind; uint64_t bit; long call = -1, ret = -1, exec_step = -1; int exec_idx = -1; int execs = 0; int exec_fiber = -1; bool threw_out = false;
-             std::future<int> fi; std::future<void> fv; bool has_fi = false, has_fv = false; bool functor_throws = false; bool fault_threw = false; };
+             std::future<int> fi; std::future<void> fv; bool has_fi = false, has_fv = false; bool functor_throws = false; bool fault_threw = false; bool std_exc = false; };
 
 struct St {
     std::deque<Sub> subs;
@@ -77,7 +80,7 @@ vh::Outcome run_def(const vh::Case& c, Prop prop) {
             t.or_bits(s.bit);
             st.order.push_back(s.bit);
             st.in_functor--;
-            if (s.functor_throws) throw UserError{s.exec_idx};
+            if (s.functor_throws) { if (s.std_exc) throw UserStdError(s.exec_idx); throw UserError{s.exec_idx}; }
         };
         int nbit = 0;
         for (size_t i = 0; i < c.fibers.size(); ++i) {
@@ -92,7 +95,7 @@ vh::Outcome run_def(const vh::Case& c, Prop prop) {
                         st.subs.emplace_back();
                         Sub& s = st.subs.back();
                         s.fiber = me; s.kind = kind; s.bit = uint64_t(1) << (nbit++ % 60);
-                        s.functor_throws = (kind == 3) || detach_throws;
+                        s.functor_throws = (kind == 3) || detach_throws; s.std_exc = (op.b & 2) != 0;
                         s.call = vrt::now_step();
                         try {
                             if (kind == 0 && (op.a & 2)) d.modify_detach(OwningFn([&body, &s](Tracked& t) { body(s, t); }));      // rvalue functor object with owning state
@@ -180,13 +183,16 @@ vh::Outcome run_def(const vh::Case& c, Prop prop) {
             if (s.has_fi) {
                 if (!s.fi.valid() || s.fi.wait_for(std::chrono::seconds(0)) != std::future_status::ready) vrt::fail("future-not-ready", "modify_async future not ready after quiescence");
                 try { int r = s.fi.get(); if (s.functor_throws || s.fault_threw) vrt::fail("future-value", "future holds a value although the function threw"); if (r != 1000 + s.exec_idx) vrt::fail("future-value", "future holds a wrong value"); }
-                catch (const UserError& e) { if (!s.functor_throws || e.k != s.exec_idx) vrt::fail("future-exception", "future holds an unexpected exception"); }
+                catch (const UserStdError& e) { if (!s.functor_throws || !s.std_exc || e.k != s.exec_idx) vrt::fail("future-exception", "future holds an unexpected exception"); }
+                catch (const UserError& e) { if (!s.functor_throws || s.std_exc || e.k != s.exec_idx) vrt::fail("future-exception", "future holds an unexpected exception"); }
                 catch (const vrt::InjectedFault&) { if (!s.fault_threw) vrt::fail("future-exception", "future holds an injected fault that never fired in it"); }
+                catch (...) { vrt::fail("future-exception", "future holds an exception that is not the one its function threw (sliced or replaced)"); }
             }
             if (s.has_fv) {
                 if (!s.fv.valid() || s.fv.wait_for(std::chrono::seconds(0)) != std::future_status::ready) vrt::fail("future-not-ready", "modify_async future not ready after quiescence");
                 try { s.fv.get(); if (s.fault_threw) vrt::fail("future-value", "void future is clean although the function threw"); }
                 catch (const vrt::InjectedFault&) { if (!s.fault_threw) vrt::fail("future-exception", "future holds an injected fault that never fired in it"); }
+                catch (...) { vrt::fail("future-exception", "void future holds an exception that is not the one its function threw"); }
             }
         }
     });
